@@ -160,6 +160,23 @@ class AgentExecutingComponent(rpu.AgentComponent):
 
     # --------------------------------------------------------------------------
     #
+    def is_canceled(self, task):
+        '''
+        Tasks which get canceled while they wait in the executor's input queue
+        (see `work_cb()`) already hold an allocation: make sure it is released.
+        '''
+
+        canceled = super().is_canceled(task)
+
+        if canceled:
+            self._prof.prof('unschedule_start', uid=task['uid'])
+            self.publish(rpc.AGENT_UNSCHEDULE_PUBSUB, task)
+
+        return canceled
+
+
+    # --------------------------------------------------------------------------
+    #
     def get_task(self, tid):
 
         raise NotImplementedError('get_task is not implemented')
